@@ -49,7 +49,7 @@ def run(ctx):
              "wp: lifecycle operation sequences with every timeout independently 1 ns or 1 h and timeoutTERM 15 ms in a quarter of "
              "the scenarios, a watchdog expiry (20 s) recorded as a STUCK observation of the case; e2e: 20-80 containers (100-500 in thorough), crash rate 0-0.3, arv-mount deadlocks, destroy error rate "
              "0-0.4, boot delay up to 40 ms, broken / crunch-run-less / self-reporting-broken VMs, create rate limit, one restart in "
-             "2/3 of the runs, deadline 30 s (100 s): final states must be Complete/Cancelled and no instance may be left",
+             "2/3 of the runs, deadline 30 s (100 s), extended while containers keep finishing (one per deadline/5, at most 3x): final states must be Complete/Cancelled and no instance may be left",
         extra={"e2e_notes": notes},
         assumptions=[
             "liveness in the real runtime is judged only by the end-to-end stage within a wall-clock deadline two orders of magnitude "
